@@ -1,3 +1,5 @@
+import Oidc.Proofs.CodeHandler
+import Oidc.Proofs.CodeStrings
 import Oidc.Shapes
 import Oidc.Proofs.Strings
 import Oidc.Proofs.Handler5
@@ -105,5 +107,31 @@ theorem text_New_ok : Oidc.Shapes.Text_New := by unfold Oidc.Shapes.Text_New; rf
 /-! ## Program text of the helpers these theorems also rest on (constructors, accessors, token endpoint, configuration) -/
 theorem text_Config_Validate_ok : Oidc.Shapes.Text_Config_Validate := by unfold Oidc.Shapes.Text_Config_Validate; rfl
 theorem text_isValidSecureURL_ok : Oidc.Shapes.Text_isValidSecureURL := by unfold Oidc.Shapes.Text_isValidSecureURL; rfl
+
+/-! ## The same statements about the code itself: the functions below are `Oidc.Generated.Code`, which `tools/go2lean` translates
+    from /repo's source, statement by statement, on every run (meaning of the Go constructs: `Oidc/GoLib.lean`) -/
+open Oidc.Generated Oidc.CodeRefine in
+/-- main.go `isLocalRedirectTarget` as translated is the model's predicate -/
+theorem code_isLocalRedirectTarget (s : Str) : Code.isLocalRedirectTarget s = isLocalTarget s :=
+  isLocalRedirectTarget_refines s
+
+open Oidc.Generated Oidc.CodeRefine in
+/-- hence a target it lets through resolves, in a browser, on the origin it is resolved against -/
+theorem code_local_is_same_origin (t : Str) (h : Code.isLocalRedirectTarget t = true) (hc : ∀ c ∈ t, isTabNl c = false) :
+    resolveOrigin t = .same := by
+  rw [code_isLocalRedirectTarget] at h; exact local_is_same_origin t h hc
+
+open Oidc.Generated Oidc.CodeRefine in
+/-- main.go `buildFullURL` as translated: a local path is appended to `scheme://host` unchanged -/
+theorem code_buildFullURL_local (scheme host path : Str) (hl : isLocalTarget path = true) :
+    Code.buildFullURL scheme host path = scheme ++ "://".toList ++ host ++ path :=
+  buildFullURL_local scheme host path hl
+
+open Oidc.Generated Oidc.CodeRefine in
+/-- main.go `determineScheme` / `determineHost` as translated are the model's: the origin comes from X-Forwarded-Proto /
+    X-Forwarded-Host when present, else from the connection and the Host header -/
+theorem code_origin (t : Go.Inst) (q : RawReq) :
+    Code.TraefikOidc_determineScheme t (goReq q) ++ "://".toList ++ Code.TraefikOidc_determineHost t (goReq q) = (digest q).base := by
+  rw [determineScheme_refines, determineHost_refines]; rfl
 
 end Oidc.Props.C15
